@@ -23,11 +23,12 @@
              hit (single tile): cache.load_tile(tile)             LoadUnder
            unlock                                                 Unlock
            hit (meta tile): load_tiles(all tiles) AFTER unlock    LoadAfter
-   `o_reload` = false is the code as it is: a tile that was missing in Load but is found by the
-   is_cached of Check (stored by somebody else in between) is neither loaded nor created - its
-   source stays None (finding reported by C08).  `o_reload` = true is the proposed repair
-   (load it again).  `o_recheck` = false is the protocol without the re-check under the lock
-   (used only for no_recheck_refuted).
+   `o_reload` = true is the code: a tile that was missing in Load but is found by the is_cached of
+   Check (stored by somebody else in between) is loaded again (`elif tile.is_missing(): load_tile`,
+   repair of finding F22).  `o_reload` = false is the protocol before that repair - the tile is
+   neither loaded nor created, its source stays None - kept only for no_reload_refuted.
+   `o_recheck` = false is the protocol without the re-check under the lock (used only for
+   no_recheck_refuted).
 
    No proofs here: the model must stay executable when a proof breaks. *)
 From Coq Require Import ZArith List Bool Arith.
